@@ -17,7 +17,9 @@
                                above the id sums: check_rel computes exactly a reference relation
                                (TransCheck.check_exact) that is transitive (TransProofs.R_trans)
      overlap_complete_partial  a `false` of types_overlap proves disjointness on the first-order
-                               cycle-free fragment (ints, bins, refs, resources, tuples, unions)
+                               cycle-free fragment (ints, bins, refs, resources, tuples, unions);
+     overlap_complete_callable_partial  the same with callable and process types in the fragment,
+                               for the variants with the F25 repair
      intersect_keeps_partial   a value of both a and b is a value of intersect_types a b (in the registry
                                after the call, which extends the one before), a b first-order cycle-free
      complement_keeps_partial  a value of o that is not a value of nr is a value of compute_complement o nr,
@@ -49,7 +51,7 @@
         `never` answer of intersect_pair's default arm is justified by overlap_complete_partial,
         the is_compatible shortcut of subtract_one by compat_sound_partial; membership in a
         first-order type is decidable, which locates the field where the value leaves b). *)
-From Quiver Require Import Base Types Rel Sem SemProofs RelProofs OverlapProofs TypesProofs Narrow NarrowProofs Witness TransCheck TransThm.
+From Quiver Require Import Base Types Rel Sem SemProofs RelProofs OverlapProofs OverlapCallable TypesProofs Narrow NarrowProofs Witness TransCheck TransThm.
 From Coq Require Import Arith.
 Close Scope Z_scope.
 Open Scope nat_scope.
@@ -107,6 +109,22 @@ Theorem C09_overlap_complete_partial : forall cfg P fuel a b r,
   (exists n v, inhab P n [] v a /\ inhab P n [] v b) -> r = true.
 Proof. exact overlap_complete_fo. Qed.
 Print Assumptions C09_overlap_complete_partial.
+
+(* with the F25 repair (now in /repo) the same holds with callable and process types in the fragment *)
+Theorem C09_overlap_complete_callable_partial : forall cfg P fuel a b r,
+  cfg_any_callable cfg = true ->
+  foc_domain P a = true -> foc_domain P b = true ->
+  types_overlap_with cfg fuel P a b = Some r ->
+  (exists n v, inhab P n [] v a /\ inhab P n [] v b) -> r = true.
+Proof. exact overlap_complete_foc. Qed.
+Print Assumptions C09_overlap_complete_callable_partial.
+
+Example C09_overlap_callable_nonvacuous :
+  cfg_any_callable current_cfg = true /\ foc_domain reg_F25fn 3 = true /\ foc_domain reg_F25fn 4 = true /\
+  types_overlap_with current_cfg 1000 reg_F25fn 3 4 = Some true /\
+  types_overlap_with current_cfg 1000 reg_F25fn 3 0 = Some false /\
+  memb reg_F25fn (VFun 6) 3 = true /\ memb reg_F25fn (VFun 6) 4 = true.
+Proof. vm_compute. repeat split; reflexivity. Qed.
 
 Example C09_overlap_nonvacuous :
   fo_domain reg_F7 5 = true /\ fo_domain reg_F7 10 = true /\
